@@ -44,6 +44,7 @@ func runC08(c *Ctx) {
 	c08NodeFromObject(c, pkM)
 	c08BytesOwned(c)
 	c08SortedFieldSorted(c)
+	c08DigestStateless(c)
 	c08ContentFullyRead(c)
 	c08SortOwnSlice(c)
 	c08CanonicalString(c)
